@@ -564,9 +564,28 @@ static std::string replay(const std::vector<OpRec>& recs, const std::vector<std:
   return "";
 }
 
-static std::string linearizable(const std::vector<OpRec>& recs, long* searched) {
-  // operations with events but no critical section cannot be placed
-  for (auto& r : recs) if (!r.events.empty() && r.tickets.empty()) return "T" + std::to_string(r.tid) + " op " + std::to_string(r.opi) + " (" + op_text(r.op) + ") took the lock 0 times";
+static std::string linearizable(const std::vector<OpRec>& recs_in, long* searched) {
+  // Real critical sections get even tickets. An operation that took the lock zero times (a lock-free
+  // implementation would be legitimate) may take effect anywhere between its thread's previous and next
+  // critical sections: it gets the odd tickets of that window as candidate positions.
+  std::vector<OpRec> recs = recs_in;
+  long maxt = 0;
+  for (auto& r : recs) for (auto& t : r.tickets) { t *= 2; maxt = std::max(maxt, t); }
+  for (size_t i = 0; i < recs.size(); ++i) {
+    OpRec& r = recs[i];
+    if (r.events.empty() || !r.tickets.empty()) continue;
+    long lo = -1, hi = maxt + 1;
+    for (size_t j = 0; j < recs.size(); ++j) {
+      if (recs[j].tid != r.tid || recs[j].tickets.empty() || (recs[j].tickets.front() & 1)) continue;
+      bool before = recs[j].tid == r.tid && (recs[j].opi < r.opi);
+      if (r.tid < 0) before = j < i;   // main thread: prologue/epilogue order = vector order
+      if (before) lo = std::max(lo, recs[j].tickets.back());
+      else if (j != i) hi = std::min(hi, recs[j].tickets.front());
+    }
+    if (r.tid < 0 && r.opi < 100) hi = std::min(hi, 0L);           // prologue: before every worker section
+    for (long t = lo + 1; t < hi + 1 && r.tickets.size() < 64; t += 2) r.tickets.push_back(t | 1);
+    if (r.tickets.empty()) r.tickets.push_back(lo + 1);
+  }
   std::vector<std::vector<size_t>> place(recs.size());
   // default placement: event i on section min(i, last); single-event operations on their first section
   for (size_t r = 0; r < recs.size(); ++r)
